@@ -1,10 +1,12 @@
 import Driver.Journal
 import Driver.Config
+import Driver.Tx
 open Driver
 
 structure DState where
   comp : CompTable := []
   loaded : Fjall.Bytes := []
+  tx : TxSession := {}
 
 def step (s : DState) (line : String) : DState × String :=
   let ws := words line
@@ -13,7 +15,10 @@ def step (s : DState) (line : String) : DState × String :=
   | none =>
     match configCmd ws with
     | some out => (s, out)
-    | none => (s, "bad-op")
+    | none =>
+      match txCmd s.tx ws with
+      | some (t, out) => ({ s with tx := t }, out)
+      | none => (s, "bad-op")
 
 partial def loop (h : IO.FS.Stream) (out : IO.FS.Stream) (s : DState) : IO Unit := do
   let line ← h.getLine
